@@ -686,7 +686,7 @@ MANIFEST = dict(
         "normalised) for masked / unmasked keys and every legal dim, and check_input for the legal range of dim; the MultiHeadedAttention "
         "constructor's guards are evaluated for dim = -3 .. 2 (a wrapped attention counting its axis from the end must be refused) and the "
         "softmax keeps the precision of the scores (no forced dtype); convexity bounds and "
-        "permutation invariance relate pairs of runtime inputs and are not decided."),
+        "permutation invariance relate pairs of runtime inputs and are not decided. Masked positions carry non-finite scores in some rows (a +inf score poisons its softmax group, as in the library)."),
     level_note="Trusted: python ast; softmax(-inf) = 0 weight. F9 (bias_WK/bias_WV validated from bias_WQ) was found by G3 "
                "and repaired.",
     technique="static analysis: reaching-definition (def-use) rules, dimension/size table agreement (softmax axis evaluated as a function of dim), argcheck idiom lint, argument binding; interpretation of the forward pass over exact values with a surrogate softmax; check_input of both classes interpreted for three different widths; shared-query rows (an in-place operation cannot broadcast its receiver); constructor guards evaluated over a range of dim; softmax dtype rule",
